@@ -7,4 +7,5 @@ CONSTANTS
   Proto = "code"
   RequireLastLeaf = TRUE
   MaxSteps = 1
+  EmitAt = 2
 INVARIANTS Emit
